@@ -189,12 +189,12 @@ def run(ctx):
             continue
         done += 1
         one_case(ctx, f'rand{k}', root, rs, 4 if quick else 12)
-        if len(ctx.violations) >= 3:
+        if ctx.n_new() >= 3:
             return
     for name, root, rs, cfg in learned_cases(ctx, 8 if quick else 120):
         ctx.count(name)
         one_case(ctx, name, root, rs, 3 if quick else 8, rep_extra=cfg)
-        if len(ctx.violations) >= 3:
+        if ctx.n_new() >= 3:
             return
 
 
